@@ -17,7 +17,7 @@
    Result, per coordinate c of the computed end point q and of
    q* = adjust_R ... :
        | q.c - q*.c |  <=  2^-24 * ( |prev.c| + 9.05 * (L - lp) ) + 2^-127 . *)
-From RM Require Import Model.ControlPoints Model.Curve Proofs.FloatFacts Proofs.AdjustExact Proofs.AdjustIEEEBase.
+From RM Require Import Model.ControlPoints Model.Curve Proofs.FloatFacts Proofs.LengthFacts Proofs.AdjustExact Proofs.AdjustIEEEBase.
 From Flocq Require Import Core BinarySingleNaN.
 From Coq Require Import Reals Lra Psatz.
 Open Scope R_scope.
@@ -314,4 +314,95 @@ Proof.
   split; [exact F1|]. split; [exact F2|].
   unfold adjust_R, adjust_point_g, adjust_coord_g, len_g. cbn [R2 fst snd]. fold Dx Dy.
   split; assumption.
+Qed.
+
+(* ---------- on adjust_end (the expression calculate_length evaluates) ---------- *)
+
+Theorem adjust_end_ieee_bound (path : list Pos) (lens : list F64) k L pp pe lp :
+  nth_error path (Nat.pred k) = Some pp -> nth_error path k = Some pe -> nth_error lens (Nat.pred k) = Some lp ->
+  adjust_hyps pp pe L lp ->
+  exists q, adjust_end path lens k L = Some q /\
+    fin (px q) /\ fin (py q) /\
+    Rabs (B2R (px q) - fst (adjust_R (R2 pp) (R2 pe) (B2R L) (B2R lp))) <= E16 (Rabs (B2R (px pp))) (B2R L - B2R lp) /\
+    Rabs (B2R (py q) - snd (adjust_R (R2 pp) (R2 pe) (B2R L) (B2R lp))) <= E16 (Rabs (B2R (py pp))) (B2R L - B2R lp).
+Proof.
+  intros Hpp Hpe Hlp H. unfold adjust_end. rewrite Hpp, Hpe, Hlp.
+  eexists. split; [reflexivity|]. exact (adjusted_end_ieee_bound pp pe L lp H).
+Qed.
+
+(* a plain absolute bound under the magnitude hypotheses: |prev.c| <= 2^20,
+   L - lp <= 2^20: 2^-24 * 10.05 * 2^20 + 2^-127 < 0.63 *)
+Lemma E16_le c t : 0 <= c <= pw 20 -> 0 <= t <= pw 20 -> E16 c t <= 0.63.
+Proof.
+  intros Hc Ht. unfold E16. assert (P20 : pw 20 = 1048576) by (cbn; lra).
+  assert (P : pw (-127) <= / 1000).
+  { apply Rle_trans with (pw (-10)); [apply bpow_le; zl|cbn; lra]. }
+  rewrite P20 in *. unfold u32. lra.
+Qed.
+
+(* ---------- the length of the adjusted curve ---------- *)
+
+Lemma edist_perturb a q q' : Rabs (edist a q - edist a q') <= Rabs (fst q - fst q') + Rabs (snd q - snd q').
+Proof.
+  assert (T : edist q q' <= Rabs (fst q - fst q') + Rabs (snd q - snd q')).
+  { unfold edist. pose proof (Rabs_pos (fst q - fst q')) as Px. pose proof (Rabs_pos (snd q - snd q')) as Py.
+    rewrite <- (sqrt_pow2 (Rabs (fst q - fst q') + Rabs (snd q - snd q'))) by lra.
+    apply sqrt_le_1_alt.
+    replace ((fst q' - fst q) ^ 2) with ((fst q - fst q') ^ 2) by ring.
+    replace ((snd q' - snd q) ^ 2) with ((snd q - snd q') ^ 2) by ring.
+    rewrite <- (pow2_abs (fst q - fst q')), <- (pow2_abs (snd q - snd q')). nra. }
+  pose proof (edist_triangle a q q') as T1. pose proof (edist_triangle a q' q) as T2.
+  rewrite (edist_sym q' q) in T2. apply Rabs_le. lra.
+Qed.
+
+(* replacing everything after vertex k-1 by one point q: the polyline length
+   is the cumulative length of vertex k-1 plus |q - path[k-1]| *)
+Lemma poly_len_new_end (path : list P2) k pp c q :
+  (1 <= k <= length path)%nat ->
+  nth_error path (Nat.pred k) = Some pp -> nth_error (cumlen path) (Nat.pred k) = Some c ->
+  poly_len (firstn k path ++ [q]) = c + edist pp q.
+Proof.
+  intros Hk Hpp Hc. destruct k as [|k1]; [exfalso; clear - Hk; lia|]. cbn [Nat.pred] in *.
+  assert (Hsplit : firstn (S k1) path = firstn k1 path ++ [pp]).
+  { clear -Hpp. revert path Hpp. induction k1 as [|k IH]; intros [|a t] H; try discriminate.
+    - cbn in H. inversion H. reflexivity.
+    - cbn [nth_error] in H. change (firstn (S (S k)) (a :: t)) with (a :: firstn (S k) t).
+      rewrite (IH t H). reflexivity. }
+  destruct (cum_R_firstn path 0%R (S k1) Hk) as [_ F2]. cbn [Nat.pred] in F2.
+  unfold poly_len. rewrite Hsplit.
+  destruct (cum_R_snoc (firstn k1 path) 0%R pp q) as [_ S2]. rewrite S2, <- Hsplit, F2.
+  f_equal. unfold cumlen in Hc. apply nth_error_nth. exact Hc.
+Qed.
+
+Theorem adjusted_length_ieee_bound (path : list Pos) (lens : list F64) k L pp pe lp c A :
+  (1 <= k < length path)%nat ->
+  nth_error path (Nat.pred k) = Some pp -> nth_error path k = Some pe -> nth_error lens (Nat.pred k) = Some lp ->
+  adjust_hyps pp pe L lp ->
+  (* c: the exact polyline length of the kept vertices path[0..k-1];
+     A: a bound on the accumulated error of the kept cumulative length lp *)
+  nth_error (cumlen (map R2 path)) (Nat.pred k) = Some c -> Rabs (c - B2R lp) <= A ->
+  let Ex := E16 (Rabs (B2R (px pp))) (B2R L - B2R lp) in
+  let Ey := E16 (Rabs (B2R (py pp))) (B2R L - B2R lp) in
+  exists q, adjust_end path lens k L = Some q /\
+    Rabs (edist (R2 pp) (R2 q) - (B2R L - B2R lp)) <= Ex + Ey /\
+    Rabs (poly_len (map R2 (firstn k path ++ [q])) - B2R L) <= A + Ex + Ey.
+Proof.
+  intros Hk Hpp Hpe Hlp H Hc HA Ex Ey.
+  destruct (adjust_end_ieee_bound path lens k L pp pe lp Hpp Hpe Hlp H) as (q & Hq & _ & _ & Bx & By).
+  exists q. split; [exact Hq|].
+  destruct H as (_ & _ & _ & _ & _ & _ & (HT0 & _) & HD).
+  assert (Hne : R2 pp <> R2 pe).
+  { intros E. rewrite E, edist_refl in HD. pose proof (bpow_gt_0 radix2 (-10)). lra. }
+  destruct (adjust_on_ray (R2 pp) (R2 pe) (B2R L) (B2R lp) Hne ltac:(lra)) as (_ & Hd).
+  pose proof (edist_perturb (R2 pp) (R2 q) (adjust_R (R2 pp) (R2 pe) (B2R L) (B2R lp))) as P.
+  rewrite Hd in P. change (fst (R2 q)) with (B2R (px q)) in P. change (snd (R2 q)) with (B2R (py q)) in P.
+  assert (D1 : Rabs (edist (R2 pp) (R2 q) - (B2R L - B2R lp)) <= Ex + Ey) by (unfold Ex, Ey; lra).
+  split; [exact D1|].
+  rewrite map_app, <- firstn_map. cbn [map].
+  rewrite (poly_len_new_end (map R2 path) k (R2 pp) c (R2 q)).
+  - replace (c + edist (R2 pp) (R2 q) - B2R L) with ((c - B2R lp) + (edist (R2 pp) (R2 q) - (B2R L - B2R lp))) by ring.
+    eapply Rle_trans; [apply Rabs_triang|]. lra.
+  - rewrite map_length. clear - Hk. lia.
+  - rewrite nth_error_map, Hpp. reflexivity.
+  - exact Hc.
 Qed.
